@@ -67,7 +67,7 @@ func newFanComponent(r *run) component {
 // The writer is the beacon node: its answer object is what the fetcher is handed.
 type fetcherC struct {
 	f    *fetcher.Fetcher
-	sub  func(string, any)
+	sub  func(string, string, any)
 	duty map[string]core.Duty
 	defs map[string]core.DutyDefinitionSet
 	cur  string
@@ -96,8 +96,8 @@ func (c *fetcherC) init(r *run) {
 		return core.NewSignedRandao(1, testutil.RandomEth2Signature()), nil
 	})
 	for range 2 {
-		c.f.Subscribe(func(_ context.Context, _ core.Duty, set core.UnsignedDataSet) error {
-			c.sub("sub", set)
+		c.f.Subscribe(func(_ context.Context, d core.Duty, set core.UnsignedDataSet) error {
+			c.sub("sub", d.String(), set)
 			return nil
 		})
 	}
@@ -128,7 +128,7 @@ func (c *fetcherC) New(r *run, w string) any {
 	return &ad.Data
 }
 
-func (c *fetcherC) Put(r *run, _, w string, sub func(string, any)) error {
+func (c *fetcherC) Put(r *run, _, w string, sub func(string, string, any)) error {
 	c.sub, c.cur = sub, w
 	return c.f.Fetch(r.ctx, c.duty[w], c.defs[w])
 }
@@ -171,7 +171,7 @@ type schedC struct {
 	target *core.Duty
 	ncb    int
 	done   chan struct{}
-	sub    func(string, any)
+	sub    func(string, string, any)
 	want   core.DutyType
 	resp   any
 }
@@ -260,7 +260,7 @@ func (c *schedC) New(r *run, w string) any {
 			c.target = &d
 			clk.frozen.Store(true)
 			c.mu.Unlock()
-			c.sub("dutysub", set) // subscribers of one duty are called one after the other by one goroutine
+			c.sub("dutysub", d.String(), set) // subscribers of one duty are called one after the other by one goroutine
 			c.mu.Lock()
 			c.ncb++
 			if c.ncb == 2 {
@@ -273,7 +273,7 @@ func (c *schedC) New(r *run, w string) any {
 	return c.resp
 }
 
-func (c *schedC) Put(r *run, _, _ string, sub func(string, any)) error {
+func (c *schedC) Put(r *run, _, _ string, sub func(string, string, any)) error {
 	if c.sub != nil {
 		return errors.New("already resolved")
 	}
@@ -300,7 +300,7 @@ func (c *schedC) Get(r *run, _, _ string, _ int) (any, string, bool, error) {
 // The writer is the validator client: the object it submits is what the component is handed.
 type vapiC struct {
 	v   *validatorapi.Component
-	sub func(string, any)
+	sub func(string, string, any)
 }
 
 func (c *vapiC) New(r *run, _ string) any {
@@ -311,8 +311,8 @@ func (c *vapiC) New(r *run, _ string) any {
 			r.t.Fatal(err)
 		}
 		for range 2 {
-			c.v.Subscribe(func(_ context.Context, _ core.Duty, set core.ParSignedDataSet) error {
-				c.sub("sub", set)
+			c.v.Subscribe(func(_ context.Context, d core.Duty, set core.ParSignedDataSet) error {
+				c.sub("sub", d.String(), set)
 				return nil
 			})
 		}
@@ -328,7 +328,7 @@ func (c *vapiC) New(r *run, _ string) any {
 	return []*altair.SyncCommitteeMessage{m1, m2}
 }
 
-func (c *vapiC) Put(r *run, _, w string, sub func(string, any)) error {
+func (c *vapiC) Put(r *run, _, w string, sub func(string, string, any)) error {
 	c.sub = sub
 	switch v := r.holder(w).val.(type) {
 	case *eth2p0.SignedVoluntaryExit:
